@@ -398,6 +398,12 @@ Definition query_spec (F : file) (o : op) : answer :=
                         | Some (t, _) => AVals [dy_pid t] | None => AErr EParse end
       | None => AErr EParse
       end
+  | ESectionTyped n ty =>
+      match nth_error (f_shdrs F) (Z.to_nat n) with
+      | Some (h, _) => if sh_ty h =? ty then opt_ans (section_vals F (Z.to_nat n)) else AErr EElf
+      | None => AErr EParse
+      end
+  | RefetchDwarf => ADone
   end.
 
 (* ------------------------------------------------------------------ generators: positions and successors *)
@@ -628,6 +634,8 @@ Definition valid_op (F : file) (o : op) : bool :=
   | ESymbol n => in_table n (f_syms F)
   | EString off => match str_at F (f_strtab_base F + off) with Some _ => true | None => false end
   | EGetTag n => has_dyn F && (0 <=? n)
+  | ESectionTyped n _ => in_table n (f_shdrs F)
+  | RefetchDwarf => true
   end.
 
 (* ------------------------------------------------------------------ hypotheses of the refinement theorem *)
@@ -671,7 +679,7 @@ Definition ex_tree : node :=
 Definition ex_file_gen (defs : Z) : file :=
   mk_file 24 [mk_ud 0 (mk_hdr 24 0 100 None) 11 ex_tree] 10 [(0, (7, 10))]
           [(0, mk_ld (mk_lpraw 30 1 200 []) 12 (mk_lpbody 201 defs) 30)] (Some (300, 40)) None
-          1000 100 2 40 500 [(mk_shdr 0 0 400 [], 140); (mk_shdr 1 0 401 [(0%nat, 9)], 180)]
+          1000 100 2 40 500 [(mk_shdr 0 0 400 [] 0, 140); (mk_shdr 1 0 401 [(0%nat, 9)] 3, 180)]
           [(500, (1, 501)); (501, (2, 506)); (600, (3, 604))]
           50 20 [(mk_phdr 410 [], 70)]
           700 16 600 [(mk_sym 0 420, 716)]
